@@ -228,6 +228,10 @@ func bandKey(emitter, class string, delta int64) string {
 
 // Run is the worker entry point.
 func Run(c *vk.Ctx) {
+	if c.Sub == "guards" {
+		runGuards(c)
+		return
+	}
 	if c.Replay != "" {
 		var cs Case
 		c.LoadReplay(&cs)
